@@ -185,7 +185,11 @@ def check(ck):
                     checks = [m for m in gg.live_nodes() if m.id in dd[n.id] and m.id != n.id and any(
                         q.is_func(prog.resolve_call(fi, c), "jsonrpc.check_for_errors") and c.args and
                         prov.origin(gg, m, c.args[0]) == tv for c in node_calls(m))]
-                    ck.require(bool(checks), "C06.4", "%s: read of %s" % (q.fn(fi), dump(e)),
+                    # <check_for_errors(reply)>["result"]: the check runs as part of evaluating the subscripted value (C06.3: it
+                    # returns the reply it was given)
+                    direct = isinstance(e.value, ast.Call) and q.is_func(prog.resolve_call(fi, e.value), "jsonrpc.check_for_errors") \
+                        and len(e.value.args) == 1 and not e.value.keywords
+                    ck.require(bool(checks) or direct, "C06.4", "%s: read of %s" % (q.fn(fi), dump(e)),
                                "dominated by check_for_errors(%s)" % dump(e.value),
                                "the result member is read without check_for_errors on the same reply having run first on "
                                "every path: a reply carrying an error can be returned as a value", q.loc(fi, n))
